@@ -1,4 +1,4 @@
-\* probing phase of a new transfer, every -B class, one pause; real constants, channel capacities 2
+\* doubling without the `bufSize < MaxBufSize` test: min(2*10240, 4096) shrinks without a slow chunk
 SPECIFICATION Spec
 CONSTANTS
   Floor = 1024
@@ -6,18 +6,18 @@ CONSTANTS
   InitSize = 10240
   HardCap = 1073741824
   BoundFloor = 1048576
-  SendCap = 2
-  AckCap = 2
-  MaxBufs = {1024, 4096, 10240, 40960, 1073741824}
+  SendCap = 1
+  AckCap = 1
+  MaxBufs = {4096}
   Modes = {"bin"}
   Protos = {4}
-  Secs = {2, 20}
-  MaxChunks = 2
+  Secs = {2}
+  MaxChunks = 1
   P1MaxChunks = 1
   MaxFiles = 1
-  MaxPauses = 1
+  MaxPauses = 0
   StartSizes = {}
-  Variant = "coded"
+  Variant = "noMaxTest"
 INVARIANTS TypeOK SizeInRange ChunksInRange NeverRejectedByReceiver NothingQueuedIsRejected ProbeEndsOnce
   TokenPaired EncoderNotStuck OneChunkWhileProbing DoubleOnlyWhenAllowed ShrinkOnlyWhenSlow
   SuspendedAfterPause ProbeEndedBy
